@@ -10,9 +10,9 @@
 #![allow(clippy::needless_range_loop)]
 
 use core::hint::black_box;
-use crypto_bigint::modular::{BoxedMontyForm, BoxedMontyParams, MontyForm, MontyParams};
-use crypto_bigint::subtle::{ConditionallySelectable, ConstantTimeEq, ConstantTimeGreater, ConstantTimeLess};
-use crypto_bigint::{BoxedUint, CheckedAdd, CheckedMul, CheckedSub, ConstChoice, ConstantTimeSelect, Gcd, Int, Integer, Limb, NonZero, Odd, Reciprocal, Uint, WrappingSub, Zero};
+use crypto_bigint::modular::{BoxedMontyForm, BoxedMontyParams, ConstMontyForm, MontyForm, MontyParams};
+use crypto_bigint::subtle::{ConditionallyNegatable, ConditionallySelectable, ConstantTimeEq, ConstantTimeGreater, ConstantTimeLess};
+use crypto_bigint::{BitOps, BoxedUint, Checked, CheckedAdd, CheckedMul, CheckedSub, ConstChoice, ConstantTimeSelect, Gcd, Int, Encoding, Integer, Limb, NonZero, Odd, Reciprocal, Uint, Wrapping, WrappingSub, Zero};
 
 /// Reference to another operand (for dependent domains such as "residue below the modulus").
 #[derive(Clone, Copy, Debug)]
@@ -431,6 +431,69 @@ fn uint_ops<const N: usize>(v: &mut Vec<Op>) {
     op!(v, "monty-pow", format!("monty/pow_bounded_exp(public bits)/U{}", 64 * N), [Arg::Any(N), Arg::Any(N)], [Arg::OddGe3(N), Arg::UpTo(b)], monty_pow_bounded::<N>);
 }
 
+
+fn uint_ops_more<const N: usize>(v: &mut Vec<Op>) {
+    let b = 64 * N as u64;
+    let nm = |s: &str| format!("uint/{s}/U{}", 64 * N);
+
+    #[inline(never)]
+    fn set_bit<const N: usize>(i: &Inputs) {
+        let mut a = u::<N>(&i.s[0]);
+        BitOps::set_bit(&mut a, i.s[1][0] as u32, sub_choice(i.s[2][0]));
+        sink(a);
+    }
+    op!(v, "uint-bits", nm("set_bit(secret index+value)"), [Arg::Any(N), Arg::UpTo(b - 1), Arg::Bit], [], set_bit::<N>);
+
+    #[inline(never)]
+    fn rem2k<const N: usize>(i: &Inputs) {
+        sink(u::<N>(&i.s[0]).rem2k_vartime(i.p[0][0] as u32));
+    }
+    op!(v, "uint-div", nm("rem2k_vartime(public k)"), [Arg::Any(N)], [Arg::UpTo(b + 1)], rem2k::<N>);
+
+    #[inline(never)]
+    fn words<const N: usize>(i: &Inputs) {
+        let a = u::<N>(&i.s[0]);
+        sink((a.to_words(), a.to_limbs(), Uint::<N>::from_words(a.to_words())));
+    }
+    op!(v, "uint-encoding", nm("to_words+from_words"), [Arg::Any(N)], [], words::<N>);
+
+    #[inline(never)]
+    fn wrappers<const N: usize>(i: &Inputs) {
+        let (a, b) = (u::<N>(&i.s[0]), u::<N>(&i.s[1]));
+        sink((Wrapping(a) + Wrapping(b), Wrapping(a) - Wrapping(b), Wrapping(a) * Wrapping(b), -Wrapping(a)));
+        sink((Checked::new(a) + Checked::new(b), Checked::new(a) - Checked::new(b), Checked::new(a) * Checked::new(b)));
+    }
+    op!(v, "uint-wrappers", nm("Wrapping+Checked add/sub/mul"), [Arg::Any(N), Arg::Any(N)], [], wrappers::<N>);
+
+    #[inline(never)]
+    fn nz_select<const N: usize>(i: &Inputs) {
+        let a = NonZero::new(u::<N>(&i.s[0])).unwrap();
+        let b = NonZero::new(u::<N>(&i.s[1])).unwrap();
+        let c = sub_choice(i.s[2][0]);
+        sink((NonZero::conditional_select(&a, &b, c), a.ct_eq(&b)));
+        let (x, y) = (Odd::new(u::<N>(&i.s[3])).unwrap(), Odd::new(u::<N>(&i.s[4])).unwrap());
+        sink((Odd::conditional_select(&x, &y, c), x.ct_eq(&y)));
+    }
+    op!(v, "uint-wrappers", nm("NonZero/Odd select+ct_eq"), [Arg::NonZero(N), Arg::NonZero(N), Arg::Bit, Arg::Odd(N), Arg::Odd(N)], [], nz_select::<N>);
+
+    #[inline(never)]
+    fn int_mul_uint<const N: usize>(i: &Inputs) {
+        let (a, b) = (si::<N>(&i.s[0]), u::<N>(&i.s[1]));
+        sink((a.split_mul_uint(&b), CheckedMul::checked_mul(&a, &b), a.checked_mul_uint_right(&b)));
+        sink((Int::new_from_abs_sign(b, choice(i.s[2][0])), a.resize::<N>()));
+    }
+    op!(v, "int-arith", format!("int/mul_uint+new_from_abs_sign/I{}", 64 * N), [Arg::Signed(N), Arg::Any(N), Arg::Bit], [], int_mul_uint::<N>);
+
+    #[inline(never)]
+    fn lincomb<const N: usize>(i: &Inputs) {
+        let params = MontyParams::<N>::new_vartime(Odd::new(u::<N>(&i.p[0])).unwrap());
+        let f = |k: usize| MontyForm::from_montgomery(u::<N>(&i.s[k]), params);
+        let (a, b, c, d) = (f(0), f(1), f(2), f(3));
+        sink(MontyForm::lincomb_vartime(&[(&a, &b), (&c, &d)]));
+    }
+    op!(v, "monty-arith", format!("monty/lincomb_vartime(public modulus, secret operands)/U{}", 64 * N), [Arg::Below(N, Ref::P(0)), Arg::Below(N, Ref::P(0)), Arg::Below(N, Ref::P(0)), Arg::Below(N, Ref::P(0))], [Arg::OddGe3(N)], lincomb::<N>);
+}
+
 /// operations that exist only for the alias sizes (safegcd inverter, Concat)
 macro_rules! uint_alias_ops {
     ($v:ident; $($n:literal),*) => { $( {
@@ -458,6 +521,54 @@ macro_rules! uint_alias_ops {
             sink(a.inv());
         }
         op!($v, "safegcd", format!("monty/inv(public modulus)/U{}", 64 * N), [Arg::Any(N)], [Arg::OddGe3(N)], monty_inv);
+    } )* };
+}
+
+macro_rules! uint_encoding_ops {
+    ($v:ident; $(($n:literal, $t:ident)),*) => { $( {
+        const N: usize = $n;
+        #[inline(never)]
+        fn bytes(i: &Inputs) {
+            let a = u::<N>(&i.s[0]);
+            let be = Encoding::to_be_bytes(&a);
+            let le = Encoding::to_le_bytes(&a);
+            sink((<crypto_bigint::$t as Encoding>::from_be_bytes(be), <crypto_bigint::$t as Encoding>::from_le_bytes(le)));
+            sink((crypto_bigint::$t::from_be_slice(be.as_ref()), crypto_bigint::$t::from_le_slice(le.as_ref())));
+        }
+        op!($v, "uint-encoding", format!("uint/to+from be/le bytes/U{}", 64 * N), [Arg::Any(N)], [], bytes);
+    } )* };
+}
+
+mod cmoduli {
+    use crypto_bigint::{impl_modulus, U128, U256, U64};
+    impl_modulus!(M64, U64, "ffffffff00000001");
+    impl_modulus!(M128, U128, "ffffffffffffffffffffffffffffff61");
+    impl_modulus!(M256, U256, "ffffffff00000000ffffffffffffffffbce6faada7179e84f3b9cac2fc632551");
+}
+
+macro_rules! const_monty_ops {
+    ($v:ident; $(($n:literal, $m:ident)),*) => { $( {
+        const N: usize = $n;
+        type F = ConstMontyForm<cmoduli::$m, N>;
+        #[inline(never)]
+        fn arith(i: &Inputs) {
+            let a = F::new(&u::<N>(&i.s[0]));
+            let b = F::new(&u::<N>(&i.s[1]));
+            let r = (a.add(&b), a.sub(&b), a.neg(), a.double(), a.mul(&b), a.square(), a.div_by_2());
+            sink((r.0.retrieve(), r.4.retrieve(), r.6.retrieve(), a.ct_eq(&b), F::conditional_select(&a, &b, sub_choice(i.s[2][0]))));
+        }
+        op!($v, "monty-arith", format!("const-monty/new+add+sub+neg+mul+square+halve+retrieve+select/U{}", 64 * N), [Arg::Any(N), Arg::Any(N), Arg::Bit], [], arith);
+        #[inline(never)]
+        fn pow(i: &Inputs) {
+            let a = F::new(&u::<N>(&i.s[0]));
+            sink(a.pow(&u::<N>(&i.s[1])).retrieve());
+        }
+        op!($v, "monty-pow", format!("const-monty/pow(secret base+exponent)/U{}", 64 * N), [Arg::Any(N), Arg::Any(N)], [], pow);
+        #[inline(never)]
+        fn inv(i: &Inputs) {
+            sink(F::new(&u::<N>(&i.s[0])).inv());
+        }
+        op!($v, "safegcd", format!("const-monty/inv/U{}", 64 * N), [Arg::Any(N)], [], inv);
     } )* };
 }
 
@@ -705,6 +816,45 @@ fn boxed_ops(v: &mut Vec<Op>, n: usize, heavy: bool) {
     }
     op!(v, "monty-arith", format!("boxed-monty/div_by_2/{n} limbs"), [Arg::Below(n, Ref::P(0))], [Arg::OddGe3(n)], monty_halve);
 
+    #[inline(never)]
+    fn bit(i: &Inputs) {
+        let mut a = bx(&i.s[0]);
+        sink(a.bit(i.s[1][0] as u32));
+        BitOps::set_bit(&mut a, i.s[1][0] as u32, sub_choice(i.s[2][0]));
+        sink(a);
+    }
+    op!(v, "boxed-bits", nm("bit+set_bit(secret index)"), [Arg::Any(n), Arg::UpTo(b - 1), Arg::Bit], [], bit);
+
+    #[inline(never)]
+    fn negate(i: &Inputs) {
+        let mut a = bx(&i.s[0]);
+        a.conditional_negate(sub_choice(i.s[1][0]));
+        sink(a);
+    }
+    op!(v, "boxed-select", nm("conditional_negate"), [Arg::Any(n), Arg::Bit], [], negate);
+
+    #[inline(never)]
+    fn bitops(i: &Inputs) {
+        let (a, b) = (bx(&i.s[0]), bx(&i.s[1]));
+        sink((&a & &b, &a | &b, &a ^ &b, !a.clone()));
+    }
+    op!(v, "boxed-bits", nm("bitops"), [Arg::Any(n), Arg::Any(n)], [], bitops);
+
+    #[inline(never)]
+    fn mul_mod(i: &Inputs) {
+        let p = NonZero::new(bx(&i.s[0])).unwrap();
+        sink(bx(&i.s[1]).mul_mod(&bx(&i.s[2]), &p));
+    }
+    op!(v, "monty-params", nm("mul_mod(secret odd modulus)"), [Arg::OddGe3(n), Arg::Below(n, Ref::S(0)), Arg::Below(n, Ref::S(0))], [], mul_mod);
+
+    #[inline(never)]
+    fn bytes(i: &Inputs) {
+        let a = bx(&i.s[0]);
+        let (be, le) = (a.to_be_bytes(), a.to_le_bytes());
+        sink((BoxedUint::from_be_slice(&be, a.bits_precision()).is_ok(), BoxedUint::from_le_slice(&le, a.bits_precision()).is_ok()));
+    }
+    op!(v, "boxed-encoding", nm("to+from be/le bytes"), [Arg::Any(n)], [], bytes);
+
     if heavy {
         #[inline(never)]
         fn monty_pow(i: &Inputs) {
@@ -741,8 +891,14 @@ pub fn ops(thorough: bool) -> Vec<Op> {
     uint_ops::<3>(&mut v);
     uint_ops::<4>(&mut v);
     uint_ops::<8>(&mut v);
+    uint_ops_more::<1>(&mut v);
+    uint_ops_more::<2>(&mut v);
+    uint_ops_more::<4>(&mut v);
+    uint_ops_more::<8>(&mut v);
     uint_alias_ops!(v; 1, 2, 4);
     uint_mulmod_ops!(v; 2, 4);
+    uint_encoding_ops!(v; (1, U64), (2, U128), (4, U256), (8, U512));
+    const_monty_ops!(v; (1, M64), (2, M128), (4, M256));
     int_ops::<1>(&mut v);
     int_ops::<2>(&mut v);
     int_ops::<4>(&mut v);
@@ -754,6 +910,9 @@ pub fn ops(thorough: bool) -> Vec<Op> {
     if thorough {
         uint_ops::<16>(&mut v);
         uint_ops::<32>(&mut v);
+        uint_ops_more::<3>(&mut v);
+        uint_ops_more::<16>(&mut v);
+        uint_encoding_ops!(v; (3, U192), (16, U1024), (32, U2048));
         uint_alias_ops!(v; 8, 16);
         uint_mulmod_ops!(v; 8, 16);
         int_ops::<8>(&mut v);
